@@ -122,7 +122,8 @@ func runC12(c *Ctx, r *Rec) {
 			}
 			key := objKey(obj)
 			unassigned, _ := g.exists(pathQuery{from: point{g.entry(), 0},
-				stop:     func(n ast.Node) bool { return n != ast.Node(rs) && assignedIn(info, n, key, env) },
+				atLeastOnce: g.nonEmptyRangeLoops(c, info, fd.Body),
+				stop:        func(n ast.Node) bool { return n != ast.Node(rs) && assignedIn(info, n, key, env) },
 				goalNode: func(n ast.Node) bool { return n == ast.Node(rs) }})
 			if unassigned {
 				bad = fmt.Sprintf("a path reaches the failing return at %s without ever assigning the token result %s: it is nil, and the caller's diagnostic (token.GetLine()) is a nil dereference instead of a located syntax error", c.pos(rs.Pos()), obj.Name())
@@ -432,6 +433,10 @@ func checkScanLoop(c *Ctx, r *Rec, info *types.Info, st *scanTables) {
 				}
 			}
 		}
+	case st.orChain != nil:
+		// found(A) || found(B) || ...: when the chain is false the loop must be left
+		r.skip("D4-scan-loop", construct, c.pos(loop.Pos()), "the matchers are tried in an or-chain: the exit on no match is not checked by this rule")
+		return
 	case st.tableLoop != nil:
 		// data-driven: for _, t := range table { if found(t) { continue scanning } }; then leave the loop
 		var after []ast.Stmt
@@ -681,6 +686,36 @@ func checkCursorOnlyByMatcher(c *Ctx, r *Rec, rule string, st *scanTables) {
 		r.skip(rule, construct, c.pos(st.scanLoop.Pos()), "the scan loop does not test a cursor field")
 		return
 	}
+	if st.foundFD == nil {
+		r.skip(rule, construct, c.pos(st.scanLoop.Pos()), "the per-type matching method could not be bound")
+		return
+	}
+	// the statement of the loop body in which the matchers are tried (directly or in a helper)
+	triesIn := func(n ast.Node) bool {
+		tries := false
+		inspectNoLit(n, func(x ast.Node) bool {
+			if call, ok := x.(*ast.CallExpr); ok {
+				d := c.declOf(calleeOf(info, call))
+				if d == st.foundFD {
+					tries = true
+				} else if d != nil && st.orChain != nil && d.Body != nil && containsNode(d.Body, st.orChain) {
+					tries = true
+				}
+			}
+			return true
+		})
+		return tries
+	}
+	anyTries := false
+	for _, s := range st.scanLoop.Body.List {
+		if triesIn(s) {
+			anyTries = true
+		}
+	}
+	if !anyTries {
+		r.skip(rule, construct, c.pos(st.scanLoop.Pos()), "the scan loop does not try the matchers in a top-level statement of its body")
+		return
+	}
 	fw := c.fieldWrites()
 	movers := map[*ast.FuncDecl]bool{}
 	for _, w := range fw[cursor.Origin()] {
@@ -689,14 +724,7 @@ func checkCursorOnlyByMatcher(c *Ctx, r *Rec, rule string, st *scanTables) {
 	bad := ""
 	// top-level statements of the loop body that precede the first attempt to match
 	for _, s := range st.scanLoop.Body.List {
-		tries := false
-		inspectNoLit(s, func(x ast.Node) bool {
-			if call, ok := x.(*ast.CallExpr); ok && c.declOf(calleeOf(info, call)) == st.foundFD {
-				tries = true
-			}
-			return true
-		})
-		if tries {
+		if triesIn(s) {
 			break
 		}
 		inspectNoLit(s, func(x ast.Node) bool {
